@@ -57,7 +57,7 @@ ANCHORS = {
 }
 MANIFEST = dict(
     text='Proof: Lean theorems over all shapes of any rank with positive extents: broadcast_shape (2-ary loop and variadic fold) succeeds iff the shapes are NumPy-compatible and then is the per-axis maximum; commutativity, associativity (Option/bind), idempotence, absorption, scalar identity; n-ary fold invariant under any permutation and any split/grouping of the operand list; shape_broadcast_to succeeds iff NumPy allows it; the offset-over-origin-axes index map of broadcast_to equals the NumPy element rule and stays in bounds; broadcast_arrays never fails after a successful broadcast_shape; any nest of broadcast_shape calls (2-ary and variadic, maybe results passed on) depends only on WHICH operands occur in it, not on their order, grouping or multiplicity (bexpr_eval_congr); with zero extents allowed the implementation is NumPy unless an axis pairs 0 with 1 (known finding); for operands of ANY container kinds (constant, clipped with any slack, fixed, bounded, dynamic, None) the container meta::resolve_optype picks for the result of broadcast_shape is never too small — no clipped integer clamps, no bounded vector overflows — and a nest of calls has the kind-blind value, a call that does not compile being a refusal (keval_kind_independent, broadcast_container_fits). Tied to the C++ by an exhaustive small-scope differential run (all pairs/triples of shapes, every element) and by a generated kind matrix (every pair / triple of shape container kinds incl. compile-time constant, clipped, fixed, bounded, dynamic, None; all operand orders and groupings; broadcast_to, broadcast_arrays, add; hook events on), both cross-checked against NumPy on every run.',
-    note='Lean kernel + propext/Classical.choice/Quot.sound; model hand-written (reversed-list recursion for the right-aligned loops), fidelity rests on the correspondence run; the value theorems are kind-blind (List Nat for every container); that the container kind does not matter is a theorem for broadcast_shape and nests of it (keval_kind_independent over resolveBroadcast, the hand-written mirror of meta::resolve_optype<broadcast_shape_t>, compared with the real result containers by the value@container answers of the kind matrix) and is established by the kind matrix alone for the view-level metafunctions; two operands that are both compile-time constants and incompatible do not compile (refusal at compile time; such clauses are printed as nothing without being run); positive extents as in the property (zero extents: bounded scope against NumPy, one known finding).',
+    note='Lean kernel + propext/Classical.choice/Quot.sound; model hand-written (reversed-list recursion for the right-aligned loops), fidelity rests on the correspondence run; the value theorems are kind-blind (List Nat for every container); that the container kind does not matter is a theorem for broadcast_shape and nests of it (keval_kind_independent over resolveBroadcast, the hand-written mirror of meta::resolve_optype<broadcast_shape_t>, compared with the real result containers by the value@container answers of the kind matrix) and is established by the kind matrix alone for the view-level metafunctions; two operands that are both compile-time constants and incompatible do not compile (refusal at compile time; such clauses are printed as nothing without being run); positive extents as in the property (zero extents: bounded scope against NumPy; 0 with 1 gives 0 since fix f45d8fe).',
     technique='Lean 4 induction proofs over List Nat shapes + differential correspondence (exhaustive small scope) + NumPy oracle')
 ASSUMPTIONS = ['extents are positive (the property\'s quantifier); with a zero extent the implementation\'s max differs from NumPy and is outside the claim',
                'size_t arithmetic does not wrap (products of the explored shapes are far below 2^32)',
@@ -66,14 +66,15 @@ ASSUMPTIONS = ['extents are positive (the property\'s quantifier); with a zero e
                'the None shape (shape of a number) is the empty shape; the free-axes entry None of shape_broadcast_to(None, .) means every axis is free']
 PARTIAL = ['independence of the container kind is PROVED for index::broadcast_shape and nests of it (keval_kind_independent, about NmVerif.resolveBroadcast, a model of meta::resolve_optype<broadcast_shape_t> that the kind matrix compares with the real result containers on every run); for the result containers of shape_broadcast_to, broadcast_size and shape_ufunc (view::broadcast_to / broadcast_arrays / add) there is no Lean model of the metafunctions: there the independence is validated by the kind matrix only (finite in kinds, sampled in shapes, hook events on)']
 
-# The model MIRRORS the two open known findings (known/C06.json) so that the defect class itself is under the
+# Both defects below are REPAIRED in /repo (fix commits f45d8fe, 28ac131): the switches are off, the classes are judged by NumPy
+# (and by the kind-blind model); setting a switch to 1 reproduces the unrepaired tree.  History: the model MIRRORED the two then-open known findings (known/C06.json) so that the defect class itself is under the
 # correspondence run.  When the repair is applied to /repo, set the switch to False (the class is then judged by NumPy
 # and, for the None source, by the kind-blind model) and close the known finding:
 #   fixes/C06-sbt-none-clipped-target.diff -> MIRROR_NONE_CLIPPED = False
 #   fixes/C06-broadcast-zero-extent.diff   -> MIRROR_ZERO_WITH_ONE = False  (bc1 = max stays the model of positive extents)
 # (the environment variables let the repaired tree be tried before the switch is committed)
-MIRROR_NONE_CLIPPED = os.environ.get('C06_MIRROR_NONE_CLIPPED', '1') == '1'
-MIRROR_ZERO_WITH_ONE = os.environ.get('C06_MIRROR_ZERO_WITH_ONE', '1') == '1'
+MIRROR_NONE_CLIPPED = os.environ.get('C06_MIRROR_NONE_CLIPPED', '0') == '1'     # repaired in /repo: fix 28ac131
+MIRROR_ZERO_WITH_ONE = os.environ.get('C06_MIRROR_ZERO_WITH_ONE', '0') == '1'    # repaired in /repo: fix f45d8fe
 
 
 def k_parse(req):
